@@ -127,6 +127,12 @@ def layout_cases(rnd: random.Random, n: int, prefix="L", dtypes=LAYOUT_DTYPES, m
             names = ", ".join(ins)
             npf = "np.concatenate" if f == "concat" else "np.stack"
             out.append(mkcase(cid, ins, f"out = ndx.{f}([{names}], axis={ax!r})", f"out = lay2(lambda xs: {npf}(xs, axis={ax!r}), [{names}])", meta, rnd))
+        elif f in ("tril", "triu") and ops.base(d) in ops.FLOATS and not ops.nullable(d) and r >= 2 and ops.prod(shape) > 0 and rnd.random() < 0.6:
+            t = x()
+            t["data"] = [rnd.choice(["inf", "-inf", "nan", v]) if rnd.random() < 0.5 else v for v in t["data"]]
+            kk = rnd.randint(-2, 2)
+            meta["style"] = "non-finite"
+            out.append(mkcase(cid, {"x": t}, f"out = ndx.{f}(x, k={kk})", f"out = np.{f}(x, k={kk})", meta, rnd))
         elif f == "broadcast_to":
             tgt = list(shape)
             src = [1 if rnd.random() < 0.4 else s for s in shape]
@@ -376,7 +382,11 @@ def constant_operand_cases(rnd, n, prefix="K", funcs=None):
         b = ops.base(d)
         v = rnd.choice([0, 1])
         cs, os_ = rnd.choice(cshapes), rnd.choice(oshapes)
-        cdata = [bool(v)] if b == "bool" else [ops.fhex(float(v))] if b in ops.FLOATS else [v]
+        if rnd.random() < 0.3:
+            # a UNIFORM constant with several elements against an operand that is the one broadcast up
+            cs, os_ = rnd.choice([([3], [1]), ([2, 3], [1, 3]), ([2, 3], [3]), ([3], []), ([2, 2], [2, 1]), ([3], [3])])
+        ne = ops.prod(cs)
+        cdata = ([bool(v)] if b == "bool" else [ops.fhex(float(v))] if b in ops.FLOATS else [v]) * ne
         const = {"dtype": d, "shape": cs, "data": cdata}
         other = ops.tensor(rnd, d, os_, "small")
         first = rnd.random() < 0.5
@@ -1004,6 +1014,23 @@ def cast_cases(rnd, n, prefix="K"):
             impl = f"y_ = ndx.astype(x, ndx.{b}); y_[...] = 1; out = ndx.astype(x, ndx.{b})"
             meta["history"] = "cast-write-cast"
         out.append(mkcase(cid, {"x": x}, impl, orc, meta, rnd, symbolic=False))
+    # special values through casts to a nullable dtype: no null may be invented
+    for k in range(max(6, n // 12)):
+        a = rnd.choice(["float64", "float32"])
+        b = rnd.choice(["nfloat64", "nfloat32"])
+        sh = [rnd.choice([2, 3, 4])]
+        vals = [rnd.choice([float("nan"), float("inf"), float("-inf"), 1.5, -0.0, 0.0]) for _ in range(sh[0])]
+        x = {"dtype": a, "shape": sh, "data": [ops.fhex(ops.f32(v) if a == "float32" and v == v and abs(v) != float("inf") else v) for v in vals]}
+        meta = {"func": "astype", "src": a, "dst": b, "dtype": a, "dclass": dclass(a), "dst_class": dclass(b), "history": "special-values"}
+        if rnd.random() < 0.5:
+            form, orc = f"out = ndx.astype(x, ndx.{b})", f"out = mk(x.astype(np.{b[1:]}), np.zeros(x.shape, bool))"
+        else:       # promotion of the plain operand by a nullable one of the same value dtype
+            form = f"out = x + ndx.asarray(np.ma.masked_array(np.zeros({sh!r}, dtype=np.{a}), mask=False))"
+            orc = f"out = mk(x + np.zeros({sh!r}, dtype=np.{a}), np.zeros(x.shape, bool))"
+            meta = dict(meta, dst="n" + a, dst_class=dclass("n" + a))
+        c = mkcase(f"{prefix}-special-{k}", {"x": x}, form, orc, meta, rnd, (1e-7, 0.0) if "float32" in (a, b) else (0.0, 0.0), symbolic=False)
+        c["lazy_subsets"] = [{"names": ["x"]}]
+        out.append(c)
     # chains of casts: every link rounds / truncates (a chain is not the cast to the last dtype)
     chains = [("float64", "float32", "float64", [0.1, 1 / 3, 100.7, -2.3, 1.0e-3, 16777217.0]), ("float64", "int32", "float64", [2.5, -2.5, 100.75, 0.99, -0.5]),
               ("int64", "float32", "int64", [16777217, 33554435, -16777219, 5, 0]), ("float32", "float64", "float32", [0.1, 2.5, -7.25]),
